@@ -14,7 +14,11 @@ import (
 func init() {
 	components["mixer"] = runMixer
 	replayers["mixer"] = func(ctx *Ctx, hdr []string, ops []string) {
-		mixerRunCase(ctx, hdr[0], parseInts(hdr[1]), parseInts(hdr[2]), hdr[3] == "true", hdr[4] == "true", ops)
+		if len(hdr) >= 7 {
+			mixerRunOne(ctx, hdr[0], parseInts(hdr[1]), parseInts(hdr[2]), hdr[3] == "true", hdr[4] == "true", hdr[5] == "true", hdr[6] == "true", ops)
+			return
+		}
+		mixerRunOne(ctx, hdr[0], parseInts(hdr[1]), parseInts(hdr[2]), hdr[3] == "true", hdr[4] == "true", false, false, ops)
 	}
 }
 
@@ -82,20 +86,54 @@ var mixerSel = map[string]iterable.SelectF[int]{
 	"mod":   func(a, b int) bool { return (a+b)%2 == 0 },
 }
 
+// mixerRunCase: the case on plain inputs, then once more on inputs whose last element vanishes between
+// HasNext() and Next() (flags g1 g2 in the case header: the model has them too, C18.vanishing_tail_irrelevant)
 func mixerRunCase(ctx *Ctx, sel string, l1, l2 []int, r1, r2 bool, ops []string) {
-	mk := func(l []int, r bool) iterable.Iterator[int] {
+	mixerRunOne(ctx, sel, l1, l2, r1, r2, false, false, ops)
+	switch (len(l1) + 2*len(ops)) % 3 {
+	case 0:
+		mixerRunOne(ctx, sel, l1, l2, r1, r2, true, true, ops)
+	case 1:
+		mixerRunOne(ctx, sel, l1, l2, r1, r2, true, false, ops)
+	default:
+		mixerRunOne(ctx, sel, l1, l2, r1, r2, false, true, ops)
+	}
+}
+
+func mixerRunOne(ctx *Ctx, sel string, l1, l2 []int, r1, r2, g1, g2 bool, ops []string) {
+	mkp := func(l []int, r bool) iterable.Iterator[int] {
 		it := iterable.WrapIntSlice(append([]int{}, l...))
 		if r {
 			return it
 		}
 		return noReset{it}
 	}
+	mkg := func(l []int, r bool) iterable.Iterator[int] {
+		it := iterable.WrapIntSlice(append([]int{}, l...))
+		if r {
+			return &vanishTailR{vanishTail{it: it}}
+		}
+		return &vanishTail{it: it}
+	}
+	first := true
+	mk := func(l []int, r bool) iterable.Iterator[int] {
+		// (called for input 1, then for input 2 of the case's Init; the warm-up Init below uses mkp directly)
+		g := g2
+		if first {
+			g = g1
+		}
+		first = false
+		if g {
+			return mkg(l, r)
+		}
+		return mkp(l, r)
+	}
 	var mx iterable.Mixer[int]
 	if (len(l1)+2*len(l2)+len(ops))%3 == 0 {
 		// the Mixer value is RE-USED: a first, partial use on other inputs (one element buffered, one emitted),
 		// then Init with this case's inputs — Init must make it indistinguishable from a fresh one
 		// (decided by the case itself so that a replay does the same)
-		mx.Init(mixerSel["lt"], mk([]int{7, 8, 9}, true), mk([]int{5, 6}, true))
+		mx.Init(mixerSel["lt"], mkp([]int{7, 8, 9}, true), mkp([]int{5, 6}, true))
 		mx.HasNext()
 		mx.Next()
 		mx.HasNext()
@@ -104,21 +142,15 @@ func mixerRunCase(ctx *Ctx, sel string, l1, l2 []int, r1, r2 bool, ops []string)
 	mx.Init(mixerSel[sel], mk(l1, r1), mk(l2, r2))
 	// shadow run: the same inputs, but their last elements "vanish" (see vanishTail): an input that answers
 	// HasNext() = true and then has nothing must count as exhausted, so every call answers the same
-	mkv := func(l []int, r bool) iterable.Iterator[int] {
-		it := iterable.WrapIntSlice(append([]int{}, l...))
-		if r {
-			return &vanishTailR{vanishTail{it: it}}
-		}
-		return &vanishTail{it: it}
-	}
+	mkv := mkg
 	var mv iterable.Mixer[int]
 	switch (len(l1) + len(ops)) % 3 {
 	case 0:
 		mv.Init(mixerSel[sel], mkv(l1, r1), mkv(l2, r2))
 	case 1:
-		mv.Init(mixerSel[sel], mkv(l1, r1), mk(l2, r2))
+		mv.Init(mixerSel[sel], mkv(l1, r1), mkp(l2, r2))
 	default:
-		mv.Init(mixerSel[sel], mk(l1, r1), mkv(l2, r2))
+		mv.Init(mixerSel[sel], mkp(l1, r1), mkv(l2, r2))
 	}
 	shadow := func(o string) string {
 		return guard(func() string {
@@ -143,7 +175,12 @@ func mixerRunCase(ctx *Ctx, sel string, l1, l2 []int, r1, r2 bool, ops []string)
 			return "bad-op"
 		})
 	}
-	ctx.R.Case(sel, fmtInts(l1), fmtInts(l2), r1, r2)
+	if g1 || g2 {
+		ctx.R.Case(sel, fmtInts(l1), fmtInts(l2), r1, r2, g1, g2)
+		ctx.R.Branch("vanishing-tail inputs")
+	} else {
+		ctx.R.Case(sel, fmtInts(l1), fmtInts(l2), r1, r2)
+	}
 	// non-trivial: both inputs non-empty with a tie under the selector, or a Reset in mid-stream
 	if len(l1) > 0 && len(l2) > 0 {
 		sf := mixerSel[sel]
@@ -186,7 +223,7 @@ func mixerRunCase(ctx *Ctx, sel string, l1, l2 []int, r1, r2 bool, ops []string)
 			return "bad-op"
 		})
 		ctx.R.Op(o, out)
-		if so := shadow(o); so != out {
+		if so := shadow(o); !g1 && !g2 && so != out {
 			ctx.R.Quiet("mon C18-vanishing-tail-same", fmt.Sprintf("with inputs whose last element vanishes between HasNext and Next, `%s` answers %s instead of %s", o, so, out))
 		}
 	}
